@@ -23,8 +23,8 @@ var utcTimeZone = time.FixedZone("GMT", 0)
 
 func builtinDate(call FunctionCall) Value {
 	date := &dateObject{}
-	date.Set(newDateTime([]Value{}, time.Local)) //nolint:gosmopolitan
-	return stringValue(date.Time().Format(builtinDateDateTimeLayout))
+	date.Set(newDateTime([]Value{}, time.Local))                              //nolint:gosmopolitan
+	return stringValue(date.Time().Local().Format(builtinDateDateTimeLayout)) //nolint:gosmopolitan
 }
 
 func builtinNewDate(obj *object, argumentList []Value) Value {
